@@ -25,11 +25,16 @@ def install(eng):
     b['method.isdigit'] = _charpred(T.c_isdigit, 'isdigit')
     b['method.isalpha'] = _charpred(T.c_isalpha, 'isalpha')
     b['method.isupper'] = _isupper
+    b['method.islower'] = _charpred(T.c_islower, 'islower')
+    b['method.isspace'] = _charpred(T.c_isspace, 'isspace')
+    b['method.isalnum'] = _charpred(T.c_isalnum, 'isalnum')
     b['method.lower'] = _lower
     b['method.upper'] = _upper
     b['method.find'] = _find
+    b['method.rfind'] = _rfind
     b['method.join'] = _join
     b['method.copy'] = lambda eng, e, st, val, valexpr, args, kw: val
+    b['collections:Counter'] = _counter_new
     install_config(eng)
     b['heapq.heappush'] = _heappush
     b['sys.setrecursionlimit'] = lambda eng, e, st, args, kw: PNone()
@@ -167,29 +172,83 @@ def _upper(eng, e, st, val, valexpr, args, kw):
     raise Unsupported('.upper() on %r' % (val,))
 
 
-def occurs_at(eng, s, lit, i):
-    """the literal occurs in s at position i (z3 Bool)."""
-    conj = [0 <= i, i + len(lit) <= T.slen(s)]
+def _base_of(s):
+    """(base string, lo, hi) when s is syntactically a slice, else (s, 0, len)"""
+    if z3.is_app(s) and s.decl().name() == 'sslice':
+        return s.arg(0), s.arg(1), s.arg(2)
+    return s, z3.IntVal(0), T.slen(s)
+
+
+def occurs_abs(base, lo, hi, lit, p):
+    """the literal occurs in base at absolute position p, inside the window [lo, hi)"""
+    conj = [lo <= p, p + len(lit) <= hi]
     for k, ch in enumerate(lit):
-        conj.append(eng.char_at(s, simp(i + k)) == ord(ch))
+        conj.append(T.sch(base, simp(p + k)) == ord(ch))
     return z3.And(conj)
 
 
+def occurs_sym(base, lo, hi, pat, p):
+    """the (symbolic) string pat occurs in base at absolute position p inside [lo, hi)"""
+    k = z3.Int('k!os')
+    return z3.And(lo <= p, p + T.slen(pat) <= hi,
+                  z3.ForAll([k], z3.Implies(z3.And(0 <= k, k < T.slen(pat)), T.sch(base, p + k) == T.sch(pat, k)),
+                            patterns=[T.sch(pat, k)]))
+
+
+def _find_symbolic(eng, e, st, val, pat):
+    _use(eng, 'str.find(s) returns the least occurrence index or -1')
+    base, lo, hi = _base_of(val.term)
+    r = z3.Int(fresh_name('find'))
+    p = z3.Int('p!fs')
+    none_before = z3.ForAll([p], z3.Implies(z3.And(lo <= p, p < lo + r), z3.Not(occurs_sym(base, lo, hi, pat.term, p))),
+                            patterns=[T.sch(base, p)])
+    nowhere = z3.ForAll([p], z3.Not(occurs_sym(base, lo, hi, pat.term, p)), patterns=[T.sch(base, p)])
+    st.assume(z3.Or(z3.And(r == -1, nowhere), z3.And(r >= 0, occurs_sym(base, lo, hi, pat.term, simp(lo + r)), none_before)))
+    return ZV(TInt, r)
+
+
+def _rfind(eng, e, st, val, valexpr, args, kw):
+    """s.rfind(literal): -1 when it does not occur, else the greatest index of an occurrence."""
+    pat = args[0]
+    if not (len(args) == 1 and isinstance(val, ZV) and val.shape == TStr and isinstance(pat, ZV) and pat.pyval is not None):
+        raise Unsupported('rfind form')
+    _use(eng, 'str.rfind(literal) returns the greatest occurrence index or -1')
+    lit = pat.pyval
+    base, lo, hi = _base_of(val.term)
+    r = z3.Int(fresh_name('rfind'))
+    p = z3.Int('p!rf')
+    none_after = z3.ForAll([p], z3.Implies(p > lo + r, z3.Not(occurs_abs(base, lo, hi, lit, p))), patterns=[T.sch(base, p)])
+    nowhere = z3.ForAll([p], z3.Not(occurs_abs(base, lo, hi, lit, p)), patterns=[T.sch(base, p)])
+    st.assume(z3.Or(z3.And(r == -1, nowhere), z3.And(r >= 0, occurs_abs(base, lo, hi, lit, simp(lo + r)), none_after)))
+    return ZV(TInt, r)
+
+
+def occurs_at(eng, s, lit, i):
+    """the literal occurs in s at position i (z3 Bool)."""
+    base, lo, hi = _base_of(s)
+    return occurs_abs(base, lo, hi, lit, simp(lo + i))
+
+
 def _find(eng, e, st, val, valexpr, args, kw):
-    """s.find(literal): -1 when it does not occur, else the least index of an occurrence."""
+    """s.find(literal): -1 when it does not occur, else the least index of an occurrence.
+    Stated over absolute positions of the underlying string so that the quantified parts have the
+    pattern sch(base, p)."""
     if len(args) != 1:
         raise Unsupported('find with start/end')
     pat = args[0]
-    if not (isinstance(val, ZV) and val.shape == TStr and isinstance(pat, ZV) and pat.pyval is not None):
-        raise Unsupported('find of a non-literal pattern')
+    if not (isinstance(val, ZV) and val.shape == TStr and isinstance(pat, ZV) and pat.shape == TStr):
+        raise Unsupported('find on non-strings')
+    if pat.pyval is None:
+        return _find_symbolic(eng, e, st, val, pat)
     _use(eng, 'str.find(literal) returns the least occurrence index or -1')
     lit = pat.pyval
-    s = val.term
+    base, lo, hi = _base_of(val.term)
     r = z3.Int(fresh_name('find'))
-    j = z3.Int('j!f')
-    none_before = z3.ForAll([j], z3.Implies(z3.And(0 <= j, j < r), z3.Not(occurs_at(eng, s, lit, j))))
-    nowhere = z3.ForAll([j], z3.Not(occurs_at(eng, s, lit, j)))
-    st.assume(z3.Or(z3.And(r == -1, nowhere), z3.And(occurs_at(eng, s, lit, r), none_before)))
+    p = z3.Int('p!f')
+    none_before = z3.ForAll([p], z3.Implies(z3.And(lo <= p, p < lo + r), z3.Not(occurs_abs(base, lo, hi, lit, p))),
+                            patterns=[T.sch(base, p)])
+    nowhere = z3.ForAll([p], z3.Not(occurs_abs(base, lo, hi, lit, p)), patterns=[T.sch(base, p)])
+    st.assume(z3.Or(z3.And(r == -1, nowhere), z3.And(r >= 0, occurs_abs(base, lo, hi, lit, simp(lo + r)), none_before)))
     return ZV(TInt, r)
 
 
@@ -206,8 +265,9 @@ def contains(eng, container, item, st, node):
         lit = item.pyval
         s = container.term
         jj = z3.Int('j!g')
-        st.assume(z3.Or(z3.And(r == -1, z3.ForAll([jj], z3.Not(occurs_at(eng, s, lit, jj)))),
-                        occurs_at(eng, s, lit, r)))
+        base, lo, hi = _base_of(s)
+        st.assume(z3.Or(z3.And(r == -1, z3.ForAll([jj], z3.Not(occurs_abs(base, lo, hi, lit, jj)), patterns=[T.sch(base, jj)])),
+                        z3.And(r >= 0, occurs_at(eng, s, lit, r))))
         return r != -1
     if isinstance(container, PList):
         return z3.Or([eng.equal(item, x, st) for x in container.items] + [z3.BoolVal(False)])
@@ -570,3 +630,14 @@ def install_argparse(eng):
     b['argparse.ArgumentParser'] = _argparser
     b['argparse:ArgumentParser.add_argument'] = lambda eng, e, st, args, kw: PNone()
     b['argparse:ArgumentParser.parse_args'] = _parse_args
+
+
+COUNTER_STR = TDict(TStr, TInt, counter=True)
+
+
+def _counter_new(eng, e, st, args, kw):
+    """Counter(): the empty counter"""
+    if args:
+        raise Unsupported('Counter(iterable)')
+    empty = COUNTER_STR.mk(z3.K(T.Str, z3.BoolVal(False)), z3.K(T.Str, z3.IntVal(0)))
+    return ZV(COUNTER_STR, empty)
